@@ -27,6 +27,18 @@ Proof. vm_compute. reflexivity. Qed.
 Theorem C14_every_access_obeys : forall a, In a access_table -> obeys a.
 Proof. exact (table_ok_sound access_table C14_discipline_current_tree). Qed.
 Print Assumptions C14_every_access_obeys.
+(* ... and, through the happens-before development (Race/HB*.v), data-race freedom of every execution that stems
+   from this table in the sense of [static_to_dynamic_esc] *)
+From Garr Require Import Race.HBModel Race.HB Race.HBPublish Race.HBEscape Race.HBStaticEscape.
+Theorem C14_current_tree_drf :
+  forall E src fld obj_of creator gets gives guard elem,
+    static_to_dynamic_esc access_table E src fld obj_of creator gives guard elem ->
+    wf_mutex E -> ref_flow E obj_of creator gets gives -> ~ data_race E.
+Proof.
+  intros E src fld obj_of creator gets gives guard elem H1 H2 H3.
+  exact (table_ok_implies_drf_esc access_table E src fld obj_of creator gets gives guard elem C14_discipline_current_tree H1 H2 H3).
+Qed.
+Print Assumptions C14_current_tree_drf.
 """
 BAD_V = """From Coq Require Import String List.
 From Garr Require Import Race.Discipline.
@@ -150,12 +162,13 @@ def replay(data):
 SPECS = {
     "C14": dict(
         title="Concurrent-safe APIs are free of data races",
-        corr=corr, replay=replay,
+        corr=corr, replay=replay, extra_prop_files=["theories/Properties/C14HB.v"],
         model_note="Race/Discipline.v: protection class of every struct field + exact list of sync-object call sites; the access table is regenerated from /repo by tools/accesstab (go/types) on every run and decided in Coq by vm_compute",
         trusted=["tools/accesstab (go/packages + go/types): classification of an access as atomic / init / write / read / sync-method",
-                 "the informal argument 'discipline => every conflicting plain access pair is ordered by the publishing or guarding synchronisation => no data race under the Go memory model' (no formal Go memory model exists to state it in Coq)",
+                 "Race/HBModel.v as a rendering of the Go memory model's happens-before (program order, Unlock->Lock/RLock, RUnlock->Lock, atomic write -> the atomic read that observes it, go -> goroutine, send -> receive; sequentially consistent order of synchronisation events); fewer edges than Go guarantees only strengthen the theorem",
+                 "the assumption static_to_dynamic_esc (Race/HBStaticEscape.v), stated precisely and shown satisfiable: every dynamic access stems from a row of the extracted table, functions listed for a guarded field hold its mutex around the access, owned objects are confined, constructors finish before the reference escapes",
                  "the Go race detector and the stress workloads are a search aid only"],
-        partial=["PARTIAL: data-race freedom itself is not a theorem; what is machine-checked is that every access in the current sources obeys the declared discipline",
+        partial=["PARTIAL: machine-checked are (1) every access in the current sources obeys the declared discipline, (2) 'discipline => no data race' for every well-formed execution of the abstract happens-before model, (3) their composition under static_to_dynamic_esc; that the Go sources' executions ARE such executions (the extractor's classification is right, lock-held regions, confinement of owned objects) is an assumption, not a theorem",
                  "lock-held regions are approximated by the enclosing function (Guarded class lists functions)",
                  "code reached only through interfaces supplied by the user (listeners, executors, tickers) is outside the table"],
         replay_how="re-run the -race stress harness: build/bin/race -secs N (built from harness_race/ against the current /repo)",
